@@ -101,7 +101,7 @@ def gen_compiled(rng):
     if rng.random() < 0.08:
         # a large asserted term (long list / wide structure with variables inside)
         T = L([rng.choice(tv + CONST) for _ in range(rng.choice([16, 17, 33, 40]))], rng.choice([NIL, tv[0]]))
-    manyvars = rng.random() < 0.03
+    manyvars = rng.random() < 0.01
     if manyvars:
         # a term with hundreds of DISTINCT variables between two occurrences of the same variable (a board, a wide
         # record): whatever table the copying keeps must hold them all
